@@ -87,7 +87,7 @@ class Exec:
     def __init__(self, plan: dict, root: str):
         self.plan = plan
         self.root = root
-        self.work = os.path.join(root, "w")
+        self.work = os.path.join(root, plan.get("knobs", {}).get("workdir", "w"))
         self.viol: list[Violation] = []
         self.notes: dict[str, int] = {}
         self.faults_fired: list = []
@@ -260,7 +260,9 @@ class Exec:
             for fname in sess["aggs"]:
                 f = plan["files"][fname]
                 ev = ev_shared if ev_shared is not None else model.build_evaluator(spec)
-                target = self.path(fname)
+                # the name handed to the constructor may lack the extension (the library adds
+                # ".tsv") - the file it must produce is `fname` either way
+                target = os.path.join(self.work, f.get("given", fname))
                 if sess.get("path_kind") == "path":
                     target = agg_mod.Path(target)
                 s.current.ctx["file"] = fname
